@@ -347,6 +347,14 @@ def decide(a, mod, results, dead, t0, nsh):
     os.makedirs(os.path.join(OUT, "evidence"), exist_ok=True)
     with open(os.path.join(OUT, "evidence", pid + ".json"), "w") as f:
         json.dump(ev, f, indent=1, sort_keys=True)
+    try:  # one-line-per-tier run log (map for DESIGN.md 8.3; the evidence file stays the authority)
+        os.makedirs(os.path.join(OUT, "runs"), exist_ok=True)
+        with open(os.path.join(OUT, "runs", f"{pid}.{a.tier}.json"), "w") as f:
+            json.dump({"property_id": pid, "tier": a.tier, "seed": a.seed, "evaluations": m["evaluations"], "distinct_nontrivial": distinct,
+                       "cases_run": m["cases_run"], "wall_s": round(wall, 1), "known_findings_seen": len(known_seen), "new_violations": len(new_viol),
+                       "inconclusive": bool(inconclusive_reasons), "repo_head": _repo_head()}, f, indent=1, sort_keys=True)
+    except OSError:
+        pass
     print(f"{pid} tier={a.tier} seed={a.seed}: evaluations={m['evaluations']} distinct_nontrivial={distinct} "
           f"cases={m['cases_run']} known={len(known_seen)} new_violations={len(new_viol)} wall={wall:.1f}s")
     if rc == 0 and inconclusive_reasons:
